@@ -1,5 +1,6 @@
 """C04 — redaction keeps exactly the spec's keys per room version (exhaustive table), structure of apply / entry points."""
-from .. import dex as D, world as W
+import re
+from .. import dex as D, world as W, facts as F
 from . import tables as T
 
 LEVEL = "other"
@@ -244,6 +245,7 @@ def run(ctx):
     rp = dex3.paths(f, [D.sym("event"), rules_s, D.sym("because")])
     okp = [p for p in rp if p.kind == "ret" and p.ret and p.ret[2] == "Ok"]
     ctx.floor("redact_in_place success paths", len(okp), 2)
+    top_closures = set()
     for i, p in enumerate(okp):
         has_content = any(a[0] == "variant" and "get_mut(event, 'content')" in D.show(a[1]) and a[2] == "Some" and t for a, t in p.conds)
         because = [a[2] for a, t in p.conds if a[0] == "variant" and a[1] == D.sym("because") and t]
@@ -263,7 +265,9 @@ def run(ctx):
         shows = [[D.show(x) for x in e[1]] for e in applies]
         top = [s for s in shows if s[2] == "event"]
         cont = [s for s in shows if s[2] != "event"]
-        good &= len(top) == 1 and "redact_in_place::{closure#0}" in top[0][0]
+        mclo = re.search(r"closure\[([^\]]*redact_in_place::\{closure#\d+\})\]", top[0][0]) if len(top) == 1 else None
+        good &= len(top) == 1 and mclo is not None
+        top_closures.add(mclo.group(1) if mclo else None)
         if has_content:
             good &= len(cont) == 1 and cont[0][0].startswith("canonical_json::retained_event_content_keys(") and \
                 "get(event, 'type')" in cont[0][0] and cont[0][0].endswith(", rules)") and "get_mut(event, 'content')" in cont[0][2]
@@ -276,7 +280,10 @@ def run(ctx):
             good &= not inserts
         ctx.check(good, "C04.entry", key, w.where(f), bad_msg=f"unexpected writes: applies={shows} inserts={[[D.show(x) for x in e[1]] for e in inserts]} others={[e[0] for e in others]}")
     # the top-level closure is exactly Ok(is_event_key_retained(rules, key))
-    clo = w.fn(f"{CJ}::redact_in_place::{{closure#0}}")
+    # the closure actually passed to the top-level apply (whatever its ordinal)
+    if len(top_closures) != 1 or None in top_closures:
+        raise F.MissingAnchor(f"top-level predicate closure of redact_in_place not identified: {sorted(map(str, top_closures))}")
+    clo = w.fn(next(iter(top_closures)))
     dex4 = D.Dex(w.lookup, adt_discr=w.adt_discr)
     cp = dex4.paths(clo, [D.sym("env"), rules_s, key_s, val_s])
     ctx.check(len(cp) == 1 and D.show(cp[0].ret) == "Result::Ok(canonical_json::is_event_key_retained(rules, key))", "C04.entry",
